@@ -1,7 +1,10 @@
 (* C17 — form and query decoding returns the submitted fields.  Property theorems only.
-   FULL statement (NOT true of the code: C17-F1; and the safe half is not proved in general yet):
-     for every map m of distinct non-empty keys to values:  parse_query (build_query m) = m. *)
-From Rws Require Import Str Utf8 Num Request GenCodec Forms C17Proof C17Round.
+   FULL statement (NOT true of the code: C17_refuted, the listed class C17-F1):  for every string s: decode_uri (encode_uri s) = s.
+   PROVED: the statement for EVERY byte string outside the class (C17_round_trip_outside_F1) - the class being "a percent sign followed by
+   one of the 15 codes the decoder handles after percent-2-5", a decidable predicate on the original string that the model runner
+   evaluates on every generated case - and the class is sharp on its shortest members (each late code itself fails).  The query and
+   form parsers around the codec: C17_parse_query_spec for one pair, representative maps by computation, correspondence for the rest. *)
+From Rws Require Import Str Utf8 Num Request GenCodec Forms C17Proof C17Round C17General.
 Open Scope N_scope.
 
 Definition C17_full : Prop := forall s, decode_uri (encode_uri s) = s.
@@ -32,3 +35,18 @@ Theorem C17_percent_free_round_trip : forall s, bytes_ok s -> ~ In 37 s -> decod
 Proof. exact percent_free_round_trip. Qed.
 Theorem C17_encoder_is_characterwise : forall s, encode_uri s = flat_map (fun c => encode_uri [c]) s.
 Proof. exact encode_charwise. Qed.
+
+(* GENERAL, outside the listed class: every byte string - any length, any bytes, percent signs included - in which no percent sign is
+   followed by a late code survives encode then decode.  (Each original character is followed through the 23 decoder steps as a token;
+   a step can only go wrong at a raw percent sign, which exists only after step 8, and then only if the next two characters spell the
+   step's code - which is the class.) *)
+Theorem C17_round_trip_outside_F1 : forall s, bytes_ok s -> in_F1 s = false -> decode_uri (encode_uri s) = s.
+Proof. exact round_trip_outside_F1. Qed.
+(* the class is inhabited and sharp where it is smallest: every late code is in it and fails; strings with percent signs that are not
+   followed by a late code are outside it (and therefore round-trip); percent-free strings are outside it *)
+Theorem C17_F1_class :
+  forallb in_F1 late_codes = true /\ forallb (fun c => negb (roundtrips c)) late_codes = true /\
+  in_F1 [37] = false /\ in_F1 [37; 37; 50; 48] = false /\ in_F1 [37; 50; 53] = false /\ in_F1 [97; 37; 52; 49; 37] = false /\ in_F1 [37; 37; 50; 54] = true.
+Proof. exact F1_inhabited_and_sharp. Qed.
+Theorem C17_percent_free_outside_F1 : forall s, ~ In 37 s -> in_F1 s = false.
+Proof. exact percent_free_outside_F1. Qed.
